@@ -11,12 +11,12 @@
   executes nothing, no such call; nothing lies between events.  (`C18_flat_exact`, `C18_flat_history`.)
 
   NESTED (`_final_check` of nesting.py, `Model/Final.lean` = the code after fix: commits 919a36b and
-  576f1fd, 56c10cf; spec `Model/Spec/C18.lean`).  `C18_nested_exact`: for every state tree, every placement of final
+  576f1fd, 56c10cf, 4b253dd; spec `Model/Spec/C18.lean`).  `C18_nested_exact`: for every state tree, every placement of final
   flags and callbacks, every configuration and every entered set a transition can produce, the owners
   whose on_final lists the transition runs are exactly the states that `fires`, children first, the
   machine last, and the check never raises.
   The defects of the tree before the fixes (DESIGN 6
-  items 10, 11, 18, and object-identity of "just entered") are kept as regression examples: the model of the repaired code gives the specified
+  items 10, 11, 18, object-identity of "just entered", `final` read from the machine object) are kept as regression examples: the model of the repaired code gives the specified
   answer on their witnesses; a return of any of them is a VIOLATION (monitor) of the check.
 -/
 import Proofs.C18
@@ -158,11 +158,18 @@ example : ((runHistory reScript (reCfg [2]) 8 3 [.trigger 0 0] (St.init (reCfg [
 callbacks, every configuration and every entered set a transition can produce (`enteredWF`: the
 entered states are active afterwards, and below an entered state everything active was entered),
 `_final_check` returns — without raising — exactly the owners that fire, children first, the machine
-last.  States are paths: two copies of an embedded child machine's state are two states. -/
+last.  States are paths: two copies of an embedded child machine's state are two states.  The machine
+object is not an input: the root scope never reads its attributes (fix 4b253dd). -/
 theorem C18_nested_exact (D : Defs) (E : List Nat) (roots : List Tree)
     (hW : enteredWF E roots = true) :
     finalCheckRoot D E roots = .ok (expected D E roots) :=
   finalCheckRoot_spec D E roots hW
+
+/-- regression witness of finding F-C18-root-reads-machine-final (fixed by 4b253dd; corpus
+`self_model_event_named_final_*.json`): flat states 1 → 2 (2 not final) on a machine that is its own model and
+has an event named `final`: nothing fires, nothing is raised -/
+example : finalCheckRoot { final := fun _ => false, onFinal := fun _ => [], machineOnFinal := [100] } [2] [.node 2 []]
+    = .ok [] := by decide
 
 /-- the callbacks run are those of the owners that fire, in that order -/
 theorem C18_nested_calls (D : Defs) (E : List Nat) (roots : List Tree) (hW : enteredWF E roots = true) :
